@@ -139,7 +139,7 @@ Definition survivors_ok (b : body_case) (seen : body_obs) : bool :=
     match lookupS k (i_ns i) with
     | Some e =>
         if is_member_kind (e_kind e) && negb (dropped_name i k)
-           && negb (has_cached && String.eqb k "__getattr__")
+           && negb (has_cached && String.eqb k "__getattr__") && negb (String.eqb k "__slots__")
         then option_eqb Nat.eqb (snd ko) (Some (e_id e)) else true
     | None => true
     end) (combine (c_keys b) (s_ns seen)).
